@@ -3,6 +3,33 @@
 import json, os, re, shutil, glob
 SRC = '/tmp/seed-out'; DST = os.path.join(os.path.dirname(os.path.dirname(os.path.abspath(__file__))), 'seeded')
 NOTES = {
+ 'C01-18': 'a reuse defect (the container stack of a reused / pooled oj.Parser after a reader that fails with a container open): outside what C01 explores (fresh instance per input); caught by C07 (history search, reader that fails mid-way)',
+ 'C02-16': 'strengthened: missed at first (no 19-digit fraction inside the window in which digits + divisor passes 2^64 before the switch to the textual form: 8446744073709551616..9223372036854775799); the fraction alphabet gained both ends of that window, a value inside it and the 18-digit neighbours',
+ 'C02-18': 'a reuse defect (ForceFloat left set by the error path of Parser.Unmarshal): every parse on a fresh parser is right, so not the business of C02; caught by C07 (Unmarshal on malformed text in the parser alphabets)',
+ 'C03-16': 'strengthened: missed at first (every token text stood alone in its context, so what reading a literal piecewise leaves behind never met a \\\\uXXXX escape); the token contexts of leg C gained two in which the token is followed by one token of every other kind (escaped string, literal, number, big number, escaped member name), split at every offset',
+ 'C04-16': 'dissolved by a repair: the change assumes that the members of an aligned row and the columns of the table are in one order. They were not (members by key, columns by encoded key text), which the table family exposed as a defect of its own once it had column names of which one begins the others; since bf1653c both are ordered by key and the change no longer breaks anything. On the tree it was written for (601d929) C04 reports it (6 signatures wrong-tree:missing with opts=align)',
+ 'C04-18': 'a reuse defect (oj.Writer keeps the io.Writer of a Write that failed): the text of each call on a fresh Writer is right; caught by C07 (writer alphabets with a failing io.Writer)',
+ 'C05-17': 'a filter-script defect (< > <= >= of two integers through float64): not caught by C05 (small integers in its documents); caught by C12 after the operand matrix gained the neighbours 2^53 and 2^53+1. The same alphabet extension in C20 exposed the same slip in asm lt / lte / gt / gte on the unchanged tree (repaired)',
+ 'C06-16': 'an accept-set defect first ("}" directly after a colon), the nil-map write is a consequence seven bytes later, beyond the consequence probe of C06; caught by C01 (BFS, every byte from every state)',
+ 'C06-17': 'strengthened: a fault at the 4096-byte refill that needs an earlier look-ahead in the same buffer: missed by every check at first (the refill family padded a single token with blanks); C03 gained the refill sweep (a 4.6 KB text of elements with member names, escaped strings, numbers, literals and line feeds, moved byte by byte so that every byte of an element falls once on either side of the refill) and reports it as a chunking difference; C06 counts the panic as an error there',
+ 'C06-18': 'a reuse defect (sen.Parser.plus survives a failed parse): caught by C07',
+ 'C07-17': 'strengthened: missed at first (no object with more than eight members, the size a recycled map starts with); the document alphabets of the parser kinds gained documents past the initial capacities (9 members, 18 levels, a 47-byte escaped string), also left open',
+ 'C08-17': 'strengthened: missed at first (no call whose text is longer than the 1024 bytes a pooled writer starts with); a grown-buffer group (oj.Marshal / oj.JSON / sen.Bytes of a 1.2 KB value next to short ones) was added; C07 catches it as well (returned-value-mutated)',
+ 'C08-18': 'strengthened: missed at first (no typed map or slice of structs as the value itself, and the race pass emptied the plan caches for one group only); a plan-cache.typed group was added and every plan-cache group now runs free with emptied caches and brand-new struct types',
+ 'C10-18': 'dissolved by a repair, like C04-16 (same change in the SEN spelling: a quoted member name sorts before a bare one as encoded text): on the tree it was written for C10 reports it (6 signatures different-key on tables); after bf1653c it no longer breaks anything and its demonstration passes',
+ 'C11-17': 'strengthened: missed at first (no union member counted from the end below the start of the array); the union alphabet gained [-5,1] and [-2,-6]',
+ 'C12-17': 'strengthened: missed at first (at most two many-valued operands in one script); the logic leg gained chains of three and four many-valued comparisons with their own constants under every mix of && and ||',
+ 'C12-18': 'a printing defect (an integral float constant loses its ".0" when it is not the first thing printed): the first script evaluates correctly, so not the business of C12; caught by C14 (constants of every kind next to every operator, printed and re-read)',
+ 'C13-17': 'strengthened: missed at first (no document that puts more than 64 entries on the evaluation stack while containers are pending below); gens.WideDocs (lists of 66 objects / numbers with short siblings before and after) under a small alphabet with paths of three fragments, in C05, C11 and C13',
+ 'C14-16': 'strengthened: the thorough tier (depth 3) caught it, quick did not; quick gained chains of three and four operands at the loosest level, each a tighter operation, leaning left and right',
+ 'C15-17': 'strengthened: missed at first (oj.Write was only run with the default WriteLimit); the oj.Write encoder of C15 now repeats every call with WriteLimit 1 and 7 and requires the tree of the plain call',
+ 'C15-18': 'strengthened: missed at first (an embedded pointer was nil or pointed to a struct with every field set); the embedded-pointer kind gained a pointer to a zero struct',
+ 'C16-16': 'strengthened: missed at first (the two anonymous struct types of the history leg print in under 64 bytes); two anonymous struct types whose printed forms agree in their first hundred bytes were added as targets and as named cases',
+ 'C16-17': 'strengthened: missed at first (the generated field names are Ab, FieldTwo ...); a named case with a field name of every length class and casing pattern (A, Bc, DE, Fgh, IJK, URL, LMn, OpQ, Rstu, VWXY, ZaBcd) was added',
+ 'C18-16': 'a number defect of gen.Parser (double rounding of 16-18 digit decimals): caught by C02; C18 gained a 17-digit decimal among its leaves and catches it too',
+ 'C18-17': 'a threshold difference between gen.Parser and oj.Parser at 18 fraction digits: caught by C03 (joint agreement); C18 gained a json.Number with 18 fraction digits among its leaves',
+ 'C20-17': 'strengthened: missed at first (small integers only); the argument alphabet gained 2^53 and 2^53+1. This made the reference asmref exact on integers and exposed a genuine defect of asm lt / lte / gt / gte (repaired)',
+ 'C20-18': 'strengthened: missed at first (a plan was compared with itself on one root, and no path was put together from data); every plan that has run on other roots is now compared with a plan compiled just now (keyed by where the Simplify() forms differ: a container literal = the listed finding, anything else its own cell), and the alphabet gained [root asm $.src.s] and [at asm @.src.s]',
  'C12-14': 'strengthened: missed at first (no integer spelled with a leading zero among the hand-written literals); the literal leg gained leading zeros (read as decimal), the int64 boundary values, zero fractions and exponents with leading zeros',
  'C13-15': 'NOT caught, by decision: the change only affects a user jp.RemovableIndexed collection; the statement of C13 names simple and gen data (see C13-4)',
  'C14-13': 'strengthened: missed at first (the arithmetic trees had integer leaves, for which regrouping a chain of + or * is invisible, and the re-parsed text is identical); the same trees are now also run over decimal leaves for which + and * are not associative in float64',
@@ -120,7 +147,7 @@ NOTES = {
  'C19-1': 'strengthened: missed at first; the perturbation catalogue gained rename (same member count, different key set)',
  'C20-1': 'strengthened: missed at first (each has no description in doc.go, asmref does not model it); an item-independence leg compares each(list) with the concatenation of each([item])',
 }
-ALSO = {'C13-15': 'not caught (outside the stated data forms)', 'C16-3': 'C03', 'C10-2': 'C10, C02', 'C17-3': 'C02', 'C01-4': 'C07', 'C03-5': 'C07', 'C09-4': 'C07', 'C02-5': 'C07', 'C06-5': 'C07', 'C04-5': 'C07', 'C10-5': 'C07', 'C05-6': 'C12', 'C08-5': 'C08, C07', 'C17-5': 'C03', 'C17-6': 'C03', 'C12-6': 'C14', 'C14-5': 'C12', 'C16-4': 'C16, C15', 'C16-5': 'C15', 'C18-5': 'C18, C02, C03', 'C13-4': 'not caught (outside the stated data forms)', 'C02-7': 'C07', 'C02-8': 'C07', 'C02-9': 'C03', 'C03-7': 'C02', 'C05-9': 'C12', 'C06-7': 'C06, C03', 'C07-9': 'C15, C08', 'C08-9': 'C08, C07', 'C09-8': 'C01', 'C16-8': 'C15', 'C16-9': 'not caught (tagged embedded fields are outside the type alphabet)', 'C17-8': 'C02', 'C18-7': 'C02'}
+ALSO = {'C01-18': 'C07', 'C02-18': 'C07', 'C04-18': 'C07', 'C05-17': 'C12', 'C06-16': 'C01', 'C06-17': 'C03', 'C06-18': 'C07', 'C12-18': 'C14', 'C18-16': 'C02, C18', 'C18-17': 'C03, C18', 'C08-17': 'C08, C07', 'C04-16': 'not caught on the repaired tree (dissolved by the repair bf1653c; caught on the tree it was written for)', 'C10-18': 'not caught on the repaired tree (dissolved by the repair bf1653c; caught on the tree it was written for)', 'C13-15': 'not caught (outside the stated data forms)', 'C16-3': 'C03', 'C10-2': 'C10, C02', 'C17-3': 'C02', 'C01-4': 'C07', 'C03-5': 'C07', 'C09-4': 'C07', 'C02-5': 'C07', 'C06-5': 'C07', 'C04-5': 'C07', 'C10-5': 'C07', 'C05-6': 'C12', 'C08-5': 'C08, C07', 'C17-5': 'C03', 'C17-6': 'C03', 'C12-6': 'C14', 'C14-5': 'C12', 'C16-4': 'C16, C15', 'C16-5': 'C15', 'C18-5': 'C18, C02, C03', 'C13-4': 'not caught (outside the stated data forms)', 'C02-7': 'C07', 'C02-8': 'C07', 'C02-9': 'C03', 'C03-7': 'C02', 'C05-9': 'C12', 'C06-7': 'C06, C03', 'C07-9': 'C15, C08', 'C08-9': 'C08, C07', 'C09-8': 'C01', 'C16-8': 'C15', 'C16-9': 'not caught (tagged embedded fields are outside the type alphabet)', 'C17-8': 'C02', 'C18-7': 'C02'}
 verify = {}
 for l in open(os.path.join(SRC, 'verify.log')):
     m = re.match(r'(C\d+-\d+): pkg=(\S+) suite_passes_with_change=(\S+) demo_fails_with_change=(\S+) demo_passes_without_change=(\S+) confirmed=(\d)', l)
